@@ -64,6 +64,28 @@ PROPS = {
         "assumptions": ["broker acknowledges every chunk immediately", "a Flush with an already cancelled context may legitimately cut or not cut (Go select picks at random); both are accepted",
                         "interval latency is judged with 2 s slack; a miss is reported only if it exceeds interval + slack"],
     },
+    "C03": {
+        "level": "exploration",
+        "groups": [g("main", "c03", q=12, t=32, run="^Test(Prop)$", gomaxprocs=[4, 1, 2, 16])],
+        "timeout": {"quick": 300, "thorough": 1800},
+        "rule": ("generated: one downstream (QoS any, 0-3 pre-registered data ids, 1-3 source-node filters, ack flush 1-10 ms, both codecs) with a keeping-up consumer (optionally slowed); broker script of up to 60 items over 1-5 upstreams and 1-8 data ids: chunks whose upstream and data ids are sent in full or alias form depending on what the client has announced SO FAR (alias as soon as announced, still full after the announcement, full again before the alias was acknowledged), metadata of all 9 kinds from subscribed sources, pauses around the ack flush interval, and (labelled) chunks using an upstream / data-id alias the client never announced. Oracle: ReadDataPoints results == the broker's "
+                 "sent list resolved through the client's own announcements (order, seq, upstream info, data ids, elapsed times, payloads), unknown "
+                 "alias -> error and no delivery, ReadMetadata per source in order + exactly one DownstreamMetadataAck per item. Non-trivial = (>=2 "
+                 "upstreams or >=3 data ids) and at least one switch from full form to alias after the announcement; distinct by case hash."),
+        "assumptions": ["the consumer keeps up: at most 200 unread items, far below the documented 1024-item buffers",
+                        "the broker only uses aliases it has received in a DownstreamChunkAck (or the open request)"],
+    },
+    "C04": {
+        "level": "exploration",
+        "groups": [g("main", "c04", q=12, t=32, run="^Test(Regress|Prop)$", gomaxprocs=[4, 1, 2, 16])],
+        "timeout": {"quick": 300, "thorough": 1800},
+        "rule": ("generated: one downstream (QoS any, 0-3 pre-registered data ids, 1-3 source-node filters, ack flush 1-10 ms, both codecs) with a keeping-up consumer (optionally slowed); broker script of up to 60 items over 1-5 upstreams and 1-8 data ids: chunks whose upstream and data ids are sent in full or alias form depending on what the client has announced SO FAR (alias as soon as announced, still full after the announcement, full again before the alias was acknowledged), metadata of all 9 kinds from subscribed sources, pauses around the ack flush interval; Close either after the acks settled or immediately after the last read (pending results). Oracle over the DownstreamChunkAck "
+                 "ledger: ack ids 1,2,3,...; results == chunks returned by ReadDataPoints exactly once with the right upstream stream id and seq; "
+                 "alias<->upstream and alias<->data id are bijections (pre-registered ids included) and every full-form first sight is announced; "
+                 "all acks precede the DownstreamCloseRequest. Non-trivial = the same upstream sent in full form again before its alias was "
+                 "acknowledged or after it was announced, or a Close with pending results; distinct by case hash."),
+        "assumptions": ["the resume part of the quantifier (acks across a link failure) is exercised by C05/C07 scenarios; results buffered on a dead link are a recorded limitation there"],
+    },
     "C06": {
         "level": "exploration",
         "groups": [g("main", "c06", q=8, t=32, run="^Test(Prop)$", gomaxprocs=[4, 1, 2, 16])],
